@@ -3,6 +3,7 @@ package main
 // C13: push dispatch — right handlers, exactly once, in order; only logged overflow is lost.
 
 import (
+	"context"
 	"fmt"
 	"strings"
 	"sync"
@@ -277,6 +278,7 @@ func runC13(r *Run) {
 		}
 	}
 	r.c13AcrossReconnect()
+	r.c13ReentrantHandler()
 	r.c13TextMessages()
 	r.c13TwoClients()
 }
@@ -382,4 +384,51 @@ func (r *Run) c13TwoClients() {
 	}
 	r.st.Evaluations++
 	r.count("c13.tcp.two-clients")
+}
+
+// c13ReentrantHandler: a push handler calls back into the client (a request) while the loss of the connection is being
+// processed; the frames queued behind it still reach every handler of their command.
+func (r *Run) c13ReentrantHandler() {
+	var mu sync.Mutex
+	got := map[int][]string{}
+	var tcRef *testClient
+	s, err := openSessionPrep("tcp", 1, func(tc *testClient) {
+		tcRef = tc
+		first := true
+		tc.cli.Subscribe(50, func(p *protocol.Packet) {
+			mu.Lock()
+			got[1] = append(got[1], string(p.Body))
+			f := first
+			first = false
+			mu.Unlock()
+			if f {
+				time.Sleep(200 * time.Millisecond) // the peer drops meanwhile
+				func() {
+					defer func() { recover() }()
+					tcRef.cli.Do(context.Background(), &client.Request{Cmd: 33}, client.RequestTimeout(150*time.Millisecond))
+				}()
+			}
+		})
+		tc.cli.Subscribe(50, func(p *protocol.Packet) { mu.Lock(); got[2] = append(got[2], string(p.Body)); mu.Unlock() })
+	}, client.DialTimeout(fDial))
+	if err != nil {
+		return
+	}
+	defer s.close()
+	var burst []byte
+	for i := 1; i <= 3; i++ {
+		burst = append(burst, pushFrame(1, 50, []byte(fmt.Sprintf("f%d", i)))...)
+	}
+	s.lk.sendFrame(burst)
+	time.Sleep(60 * time.Millisecond)
+	s.lk.drop()
+	ok := waitUntil(4*time.Second, func() bool { mu.Lock(); defer mu.Unlock(); return len(got[1]) == 3 && len(got[2]) == 3 })
+	mu.Lock()
+	defer mu.Unlock()
+	if !ok {
+		r.violate(Violation{What: fmt.Sprintf("pushes queued behind a handler that calls back into the client during a connection loss were not all delivered: handler 1 got %v, handler 2 got %v", got[1], got[2]),
+			Case: "tcp: 3 pushes in one segment, two handlers, the first sleeps 200 ms and then issues a request; the peer drops after 60 ms"})
+	}
+	r.st.Evaluations++
+	r.count("c13.tcp.reentrant-handler")
 }
